@@ -23,6 +23,13 @@ if os.path.isdir(sd):
         mp = os.path.join(sd, n, 'meta.json')
         if os.path.exists(mp):
             meta = json.load(open(mp)); seeded['s_' + n] = meta; table['s_' + n] = '/'.join(meta['checks'])
+# behaviour-PRESERVING refactorings (benign/<id>/): the checks must stay silent on them
+bd = os.path.join(VERIF, 'benign')
+if os.path.isdir(bd):
+    for n in sorted(os.listdir(bd)):
+        mp = os.path.join(bd, n, 'meta.json')
+        if os.path.exists(mp):
+            meta = json.load(open(mp)); seeded['b_' + n] = dict(meta, _dir=os.path.join(bd, n)); table['b_' + n] = '/'.join(meta['checks'])
 slots = list(range(J)); slock = threading.Lock()
 def lean_copy(k):
     base = '/tmp/vl/%d' % k
@@ -46,7 +53,8 @@ def _one(name, leandir):
     for sub in ('include', 'src', 'tools'): shutil.copytree(os.path.join('/repo', sub), os.path.join(d, sub))
     shutil.copytree(os.path.join('/repo', 'test', 'data'), os.path.join(d, 'test', 'data'))   # conformance data the checks read
     if name in seeded:
-        r = subprocess.run(['patch', '-p1', '-s', '-d', d, '-i', os.path.join(sd, name[2:], 'patch.diff')], stdout=subprocess.PIPE, stderr=subprocess.STDOUT, text=True)
+        pdir = seeded[name].get('_dir') or os.path.join(sd, name[2:])
+        r = subprocess.run(['patch', '-p1', '-s', '-d', d, '-i', os.path.join(pdir, 'patch.diff')], stdout=subprocess.PIPE, stderr=subprocess.STDOUT, text=True)
         if r.returncode != 0: print(name, 'PATCH DOES NOT APPLY', r.stdout[-300:], flush=True); shutil.rmtree(d); return
     else:
         f, old, new = edits[name]
